@@ -71,6 +71,19 @@ func (d *dImpl) dump(l *listz.DList[int]) string {
 		v = append(v, strconv.Itoa(x))
 		n++
 	}
+	// iter.go: an early break must stop the iterator after exactly the yielded prefix
+	if k := len(v) / 2; k > 0 {
+		var pre []string
+		for x := range l.All() {
+			pre = append(pre, strconv.Itoa(x))
+			if len(pre) == k {
+				break
+			}
+		}
+		if strings.Join(pre, " ") != strings.Join(v[:k], " ") {
+			v = append(v, "all-break!")
+		}
+	}
 	return fmt.Sprintf("%d f[%s] b[%s] v[%s]", l.Len(), strings.Join(f, " "), strings.Join(b, " "), strings.Join(v, " "))
 }
 
